@@ -3,7 +3,7 @@
    the remaining stream is a function of that value. *)
 From LexVerif Require Import Base CharClass RangeMap Regex Spec SpecExec LexSpec Nfa Dfa NfaToDfa NfaSem Codegen
      Runtime ScanIface RulesetSem Driver SpecDef ClassAlgProofs RuntimeProofs RuntimeLemmas ScanOkProofs
-     RulesetSemProofs LexSpecProofs LexSpecFacts EndToEnd EndToEndModel Instance Harness.
+     RulesetSemProofs LexSpecProofs LexSpecFacts SpecInvariants EndToEnd EndToEndModel Instance Harness.
 From LexVerif.Gen Require Import GenTables GenConsts.
 
 Theorem c15_snapshot : forall (width : N -> N) (tab_width : N) (T E U : Type) (prog : program)
